@@ -196,8 +196,9 @@ def library_purity(ctx, oq, r, wd, sig):
                 ok = fp.plain_bytes(t) == b
             elif call == "quantize_activation":
                 qt = ["qint8", "qfloat8_e4m3fn", "qfloat8_e5m2"][r.integers(3)]
-                t = lifecycle.batch(r, (4, 8), wd)
-                sc = torch.tensor(0.05, dtype=wd)
+                # ordinary and out-of-range values, unit (never calibrated) and ordinary scales
+                t = lifecycle.batch(r, (4, 8), wd, mag=float(r.choice([1.0, 30.0, 3000.0, 60000.0 if wd != torch.float16 else 20000.0])))
+                sc = torch.tensor(float(r.choice([1.0, 1.0, 0.05, 7.0])), dtype=wd)
                 b, bs = fp.plain_bytes(t), fp.plain_bytes(sc)
                 oq.quantize_activation(t, oq.qtypes[qt], sc)
                 ok = fp.plain_bytes(t) == b and fp.plain_bytes(sc) == bs
@@ -391,6 +392,16 @@ def run(ctx):
                     twin_equivalence(ctx, oq, m2, m2._qv_rebuild, lifecycle.batch(r, shape2, wd),
                                      dict(sig0, exit="exception" if outcome == "raised" else "normal",
                                           fault=f.split(":")[-1]), dict(desc=desc, k=k))
+        # ---- never calibrated models (unit activation scales) on large inputs: saturation must not touch the input
+        try:
+            m4, shape4, _b4, _k4 = build_model(oq, r, wd, aq)
+            if r.random() < 0.5:
+                oq.freeze(m4)
+            big = lifecycle.batch(r, shape4, wd, mag=float(r.choice([30.0, 1000.0, 20000.0])))
+            ctx.count("uncalibrated_models")
+            pure_forward(ctx, m4, big, dict(sig0, model="uncalibrated"), dict(desc=desc))
+        except Exception as e:
+            ctx.violation(dict(sig0, kind="uncalibrated_inference_raises", exc=type(e).__name__), dict(desc=desc, msg=str(e)[:200]))
         # ---- weights-only models (float activations), scalar heads and shared trunks included
         for _ in range(2):
             k2 = ["scalar_head", "two_heads", "mlp_small", "conv", "linear"][int(r.integers(5))]
